@@ -779,11 +779,28 @@ def hcomb(a, b):
 
 
 class PC:
-    """class attribute and instance attribute differ (F-C06-16: the translator instantiates the class)"""
+    """class attribute and instance attribute differ (F-C06-16: the translator instantiated the class)"""
     a = 1.0
 
     def __init__(self):
         self.a = 2.0
+
+
+class PD:
+    """an attribute that exists on instances only: `PD.b` raises AttributeError in Python"""
+
+    def __init__(self):
+        self.b = 4.0
+
+
+class PF:
+    """a class attribute that is itself a class, and one that is an instance"""
+    inner = PC
+    inst = PC()
+    c = 0.5
+
+
+pc_inst = PC()
 '''
 
 # a second module with the same names bound to other functions / values (function-local imports pick from here)
@@ -917,7 +934,7 @@ class Gen:
     def header(self) -> str:
         return (
             "import math\nimport numpy as np\n"
-            f"import {self.helper_mod} as hp\nfrom {self.helper_mod} import hmul, hclip, HD, PC\n"
+            f"import {self.helper_mod} as hp\nfrom {self.helper_mod} import hmul, hclip, HD, PC, PD, PF, pc_inst\n"
             "from mxlpy import fns\nfrom mxlpy.fns import mass_action_1s\n\n"
             "K1 = 2.0\nK2 = 0.5\nK3 = -4.0\nNI = 3\n\n"
         )
@@ -1354,6 +1371,28 @@ def t_call_kwonly(x):
 
 def t_class_attr(x):
     return x * PC.a
+
+
+def t_class_attr2(x, y):
+    if x > PC.a:
+        return y * PC.a + PF.c
+    return hp.PC.a - y
+
+
+def t_class_nested_cls(x):
+    return x * PF.inner.a
+
+
+def t_class_nested_inst(x):
+    return x * PF.inst.a + PF.c
+
+
+def t_inst_attr(x):
+    return x * pc_inst.a - hp.pc_inst.a
+
+
+def t_class_inst_only(x):
+    return x * PD.b
 
 
 def t_ret_not_last(s, vmax, km):
